@@ -785,8 +785,8 @@ func main() {
 	}()
 	driver.Main(driver.Engine{
 		Prop: "C03", CoqImport: "Dials.Check.C03Check", CoqRun: "run_cases",
-		Rule: "random object graphs over the node types SN{Kids []*SN; M map[string]*SN; Arr [2]*SN; Ch chan int; priv int}, " +
-			"IN{Any interface{}; Anys []interface{}; MA map[string]interface{}} (payloads: *IN, typed nil pointers, *SN, shared maps, slices, struct and array values) " +
+		Rule: "random object graphs over the node types SN{MM map[string]map[string]*SN; Kids []*SN; M map[string]*SN; Arr [2]*SN; Ms []map[string]*SN; Ch chan int; priv int} (inner maps of MM shared with M / Ms), " +
+			"IN{PI *int; PL *[]interface{}; PM *map[string]interface{}; Any interface{}; Anys []interface{}; MA map[string]interface{}} (payloads: *IN, typed nil pointers, *SN, shared maps, slices, struct and array values, and pointers to non-structs *int / *string / *[]interface{} / *map[string]interface{} shared with the typed fields and with each other, also cyclic) " +
 			"and PN{Next, Other *PN}; nil-probability of a reference swept over {1,2,3,5,7}/8, three target styles (self/back/anywhere, no self references, mostly the next node); shared maps, " +
 			"shared and offset slices; each graph goes through VerifDeepCopy (root handed over as pointer, map, slice or struct value) or through dials.Config(ctx,&root)+View in a child process; " +
 			"non-trivial: the graph below the root has a cycle or a pointer/map referenced at least twice; distinct = distinct PRNG case states",
